@@ -74,7 +74,11 @@ fn dispatch(cmd: &str, opts: &Opts) -> i32 {
     }
     match cmd {
         "C01" => props::c01::run(opts),
+        "C02" => props::c02::run(opts),
         "C03" => props::c03::run(opts),
+        "C05" => props::c05::run(opts),
+        "C07" => props::c07::run(opts),
+        "C15" => props::c15::run(opts),
         "C12" => props::c12::run(opts),
         "C14" => props::c14::run(opts),
         _ => {
